@@ -267,7 +267,9 @@ def run(chk):
     except TV.TranslateError as e:
         raise core.InfraError(f'translate_vocab: {e}')
     PROPS = ['PeptVerif.Props.C10', 'PeptVerif.Props.C10TabU', 'PeptVerif.Props.C10TabP', 'PeptVerif.Props.C10TabX',
-             'PeptVerif.Props.C10Mass', 'PeptVerif.Props.C10Generic', 'PeptVerif.Props.C10Glycan']
+             'PeptVerif.Props.C10Mass', 'PeptVerif.Props.C10Generic', 'PeptVerif.Props.C10Glycan'] + (
+                 ['PeptVerif.Props.C10Resolve'] if os.path.exists(os.path.join(core.LEAN, 'PeptVerif', 'Props', 'C10Resolve.lean'))
+                 else [])
     chk.lean_build(PROPS, DRV)
     if chk.lean_problems:
         # a table theorem no longer checks: evaluate the same boolean checks entry by entry to name the witnesses
@@ -630,6 +632,7 @@ def run(chk):
         r = rng.random()
         if r < 0.2:
             x = round(rng.uniform(-500, 500), rng.randint(0, 6))
+            x = abs(x) if x == 0 else x  # no negative zero
             gcases.append(('number', rng.choice(UNI_PREF + PSI_PREF + XL_PREF + ['R:', 'G:', 'Obs:', 'obs:', '']), x))
         elif r < 0.45:
             gcases.append(('formula', rng.choice(['Formula:', 'formula:']), gen_comp_dict()))
@@ -755,6 +758,29 @@ def run(chk):
                     return f'mod_comp(Mod({b!r}, {k})) = {c1}, expected {exp}'
             return None
         return None
+
+    # deferred validation (C09 clause on the resolver): an unresolvable value raises a ValueError-family error, it never
+    # counts as zero silently and never escapes as KeyError / TypeError / IndexError / AttributeError
+    def o_value_errors(t):
+        for what, fn in (('mod_mass', lambda: pt.mod_mass(t)), ('mod_mass avg', lambda: pt.mod_mass(t, monoisotopic=False)),
+                         ('mod_comp', lambda: pt.mod_comp(t))):
+            try:
+                r = guarded(fn)
+            except Hang:
+                return f'{what}({t!r}) does not return'
+            except ValueError:
+                continue
+            except Exception as e:  # noqa
+                return f'{what}({t!r}) raises {type(e).__name__}: {e} (not in the ValueError family)'
+            if r is None:
+                return f'{what}({t!r}) returned None'
+        return None
+
+    junk = ['', 'foo', 'Acetyll', 'U:', 'U:Foo', 'M:Foo', 'X:Foo', 'R:Foo', 'G:Foo', 'Formula:', 'Formula:Xx2', 'Formula:[13C', 'Formula:C]',
+            'Glycan:Foo', 'Glycan:Hex2.1.', 'Obs:', 'Obs:abc', 'INFO:x', 'info:', 'info:x|INFO:y', 'foo|bar', '|', '||', 'U:+1a', 'M:-',
+            'x:y:z', ':', 'Unimod', 'N/A', '#', 'foo#g1', 'INFO:x#g1', 'Formula:C2|foo', 'foo|Formula:C2', 'U:Foo|Acetyl']
+    chk.oracle('unresolvable_raises_value_error', junk + rnd[:: (2 if not big else 1)], o_value_errors,
+               nontrivial_fn=lambda t: True, key_fn=repr)
 
     chk.oracle('generic_forms', corpus_generic + gcases, o_generic, nontrivial_fn=lambda c: True, key_fn=repr)
     lap('oracle generic')
